@@ -59,6 +59,12 @@ func genC07(ctx *Ctx) {
 			panic(err)
 		}
 		nc := 1 + r.Intn(4)
+		// round 2 is scripted: four clients of one protocol version whose (keyspace, compression) pairs read the same when
+		// written one after the other -- ks1 with lz4 / ks1lz4 without, no keyspace with snappy / keyspace "snappy" without
+		collide := round == 2
+		if collide {
+			nc = 4
+		}
 		type cst struct {
 			cl   *px.Client
 			ver  primitive.ProtocolVersion
@@ -71,6 +77,9 @@ func genC07(ctx *Ctx) {
 			compSent := hv.Pick(r, []string{"", "", "lz4", "snappy", "LZ4"})
 			if ver == 5 && strings.EqualFold(compSent, "snappy") {
 				compSent = "lz4"
+			}
+			if collide {
+				ver, compSent = 4, []string{"lz4", "", "snappy", ""}[i]
 			}
 			cl, err := px.Dial(env.Addr)
 			if err != nil {
@@ -179,6 +188,15 @@ func genC07(ctx *Ctx) {
 			ctx.Count("concurrent-use-of-one-new-keyspace")
 		}
 		nops := 4 + r.Intn(16)
+		type scripted struct {
+			client int
+			use    string // "" = a request
+		}
+		script := []scripted{{0, "ks1"}, {1, "ks1lz4"}, {3, "snappy"}, {0, ""}, {1, ""}, {2, ""}, {3, ""}, {1, ""}, {0, ""}, {3, ""}, {2, ""}}
+		if collide {
+			nops = len(script)
+			ctx.Count("scripted:keyspace-and-compression-that-read-alike")
+		}
 		forced := -1 // after a USE that failed, the same client's next request shows which keyspace is in force
 		for k := 0; k < nops; k++ {
 			i := r.Intn(nc)
@@ -186,12 +204,20 @@ func genC07(ctx *Ctx) {
 			if forced >= 0 {
 				i, choice, forced = forced, 7, -1
 			}
+			if collide {
+				i, choice = script[k].client, 7
+				if script[k].use != "" {
+					choice = 0
+				}
+			}
 			c := cs[i]
 			switch choice {
 			case 0, 1, 2:
 				ks := hv.Pick(r, c07Keyspaces)
 				ok := true
-				if r.Intn(3) == 0 {
+				if collide {
+					ks = script[k].use
+				} else if r.Intn(3) == 0 {
 					ks, ok = hv.Pick(r, []string{"missing", "\"Missing\"", "slowks", "oddks"}), false
 					ctx.Count("failing-use:" + ks)
 					forced = i
